@@ -1,6 +1,7 @@
 import H2T.Lemmas.FitsBlock
 import H2T.Lemmas.ConserveTree
 import H2T.Lemmas.ConserveTableTree
+import H2T.Lemmas.ConserveTableExact
 import H2T.Props.C15
 import H2T.Props.C04
 
@@ -169,6 +170,18 @@ theorem stacked_row_adds_its_cells (c : Ch) (hc : isBox c = false) (s s' : SubR)
     (hcf : ∀ col ∈ cols, col.FragsOk) (h : s.appendVertRow cfg cols = .ok s') :
     s'.ink.count c = s.ink.count c + (cols.map fun col => col.ink.count c).sum :=
   (appendVertRow_cnt c hc s s' cfg cols hf hcf h).1
+
+/-- **a regular table conserves its text exactly**: a side-by-side table whose columns all have width, whose rows tile
+    the columns and whose cells hold table-free content adds — per character that has width and is neither a box-drawing
+    character nor the strikeout mark — exactly the occurrences in its cells' texts: nothing lost, nothing duplicated
+    (the multiset half of the property for bordered tables; without these hypotheses cells can be skipped: `≤` only) -/
+theorem regular_table_conserves_text (c : Ch) (hc : isBox c = false) (hm : c ≠ strikeMark) (hw : 0 < c.w) (cfg : Cfg) (d : Deco)
+    (hfn : cfg.footnotes = false) (hov : cfg.overflow = false) (cols : List SizeEst) (rows : List Op) (t t' : RS) (ws : List Nat) (tw : Nat)
+    (ha : allocCols cfg t.cur.width cols = .ok (ws, false, tw)) (hpos : ∀ x ∈ ws, 0 < x)
+    (hwf : wfRows rows = true) (hreg : regRows ws.length rows = true) (hsil : rowsSilent rows = true) (hfr : t.cur.FragsOk)
+    (he : runOp SubR.widthMinus cfg d t (.table cols rows) = .ok t') :
+    t'.cur.ink.count c = t.cur.ink.count c + (rawInks d rows).count c :=
+  table_cnt_eq c hc hm hw cfg d hfn hov cols rows t t' ws tw ha hpos hwf hreg hsil hfr he
 
 /-! non-vacuity: the letter `a` is neither a box character nor the strikeout mark; the trivial decorator is silent -/
 example : isBox (mkCh 97) = false ∧ mkCh 97 ≠ strikeMark ∧ SilentDeco Deco.trivial := ⟨rfl, by decide, trivial_silent⟩
